@@ -54,6 +54,8 @@ def run(tier, seed):
                 s.cd_extra = {"crossOrigin": False, "other_keys_can_be_added_here": "do not compare clientDataJSON against a template", "extra": [1, {"a": None}]}
             if i % 4 == 1:
                 s.token_binding = rng.choice([{"status": "supported"}, {"status": "present", "id": "tb-id"}, "legacy-string-value"])
+            if i % 4 == 2:        # native app facets: the payload is case-sensitive
+                s.origin = ("android:apk-key-hash:Z8a8pvVL-_AbCdEfGhIjKlMnOpQrStUvWxYz0123456", "ios:bundle-id:com.Example.App")[(i // 4) % 2]
             if i % 5 == 3:
                 s.exp_origin = ["https://x.example", s.origin, "https://y.example"]
             s.n_inter = 0 if fmt == "fido-u2f" else i % 3
